@@ -174,6 +174,13 @@ def proposeDecision (lock : Option (View × Nat × Nat)) (b : Nat) (hq : Option 
   | none => none
   | some (lv, lph, lb) => Gen.Bft.safeNode (safeNodeInput lv lph lb b hq)
 
+/-- symbolic aggregate signature: the certificate verifies iff every listed signer signed exactly this payload
+    (PROPOSE_VOTE / PRECOMMIT_VOTE certificates; ELECTION_VOTE certificates are not recorded in the history) -/
+def World.sigValid (w : World) (c : CertD) : Bool :=
+  if c.phase == phase_PROPOSE_VOTE then c.signers.all fun r => votedPropose w.hist r c.view c.blk
+  else if c.phase == phase_PRECOMMIT_VOTE then c.signers.all fun r => votedPrecommit w.hist r c.view c.blk
+  else true
+
 /-- `StartProposeVotePhase` -/
 def proposeVote (s : Rep) (prop : Option (Nat × Nat × Option CertD)) : Rep × String :=
   match prop with
@@ -280,7 +287,10 @@ def World.leaderVerdict (w : World) (s : Rep) (m : MsgD) : Verdict :=
   let hqErr : Option String :=
     match m.hq with
     | none => none
-    | some c => Gen.Bft.checkHighQCPost (w.isPartial c.signers) (certHdr c) (hdrOf ⟨s.root, s.round⟩ s.phase) 0
+    | some c =>
+      if !(w.sigValid c) then some "ErrInvalidAggrSignature"
+      else Gen.Bft.checkHighQCPost (w.isPartial c.signers) (certHdr c) (hdrOf ⟨s.root, s.round⟩ s.phase) 0
+  if !(w.sigValid m.qc) then .err "ErrInvalidAggrSignature" else
   match hqErr with
   | some e => .err e
   | none =>
@@ -300,6 +310,7 @@ def World.checkLeaderMsg (w : World) (s : Rep) (m : MsgD) : String := (w.leaderV
 /-- `handleHighQCVDFAndEvidence` for an ELECTION_VOTE that passed `CheckReplicaMessage` (same height and root height) -/
 def World.electionVote (w : World) (s : Rep) (v : View) (hq : CertD) : Rep × String :=
   if v.root != s.root then (s, "err:ErrWrongRootHeight") else
+  if !(w.sigValid hq) then (s, "err:ErrInvalidAggrSignature") else
   match Gen.Bft.checkHighQCPost (w.isPartial hq.signers) (certHdr hq) (hdrOf ⟨s.root, s.round⟩ s.phase) 0 with
   | some e => (s, "err:" ++ e)
   | none =>
